@@ -389,6 +389,9 @@ func (ex *Exec) makeSlice(fr *Frame, instr *ssa.MakeSlice, ln, cp *Term) Value {
 		capN := ex.allocCap
 		if capN < 0 {
 			capN = ex.cfg.DefaultAllocCap
+		} else if sz := gcSizes.Sizeof(tElt); sz > 1 {
+			// a declared cap is in bytes: n elements of sz bytes each
+			capN /= sz
 		}
 		ok := mkAnd(mkCmp(OpSLe, mkConst(64, 0), ln64), mkCmp(OpSLe, ln64, mkConst(64, uint64(capN))))
 		ok = mkAnd(ok, mkAnd(mkCmp(OpSLe, ln64, cp64), mkCmp(OpSLe, cp64, mkConst(64, uint64(capN)))))
@@ -428,14 +431,14 @@ func (ex *Exec) makeSlice(fr *Frame, instr *ssa.MakeSlice, ln, cp *Term) Value {
 		ex.throw(fr, instr.Pos(), "makeslice: len out of range")
 	}
 	if int64(c) > ex.cfg.HardAllocLimit {
-		if ex.allocCap >= 0 && int64(c) > ex.allocCap {
+		if ex.allocCap >= 0 && int64(c)*elemBytes(tElt) > ex.allocCap {
 			ex.recordViolation("alloc", "allocation-bound", ex.posOf(fr, instr.Pos()),
 				fmt.Sprintf("make of %d elements exceeds declared cap %d", c, ex.allocCap), ex.model)
 			panic(abortPath{"stop", "allocation above cap"})
 		}
 		ex.unsupported("make of %d elements exceeds the engine's hard limit", c)
 	}
-	if ex.allocCap >= 0 && int64(c) > ex.allocCap {
+	if ex.allocCap >= 0 && int64(c)*elemBytes(tElt) > ex.allocCap {
 		m := ex.model
 		if m == nil {
 			_, m = ex.solver.Check(nil, true)
@@ -599,4 +602,13 @@ func (ex *Exec) concretizeOrPick(t *Term, where string) uint64 {
 		ex.addPC(first, nil)
 	}
 	return ex.pickOne(t, where+" above enumeration limit: one representative value")
+}
+
+var gcSizes = types.SizesFor("gc", "amd64")
+
+func elemBytes(t types.Type) int64 {
+	if sz := gcSizes.Sizeof(t); sz > 1 {
+		return sz
+	}
+	return 1
 }
